@@ -390,6 +390,8 @@ class UBXMessage:
             val = (bitfield >> bfoffset) & ((1 << atts) - 1)
         else:
             val = kwargs.get(keyr, 0)
+            if not 0 <= val < (1 << atts):
+                raise OverflowError(f"Value {val} does not fit {atts} bit flag {keyr}")
             bitfield = bitfield | (val << bfoffset)
 
         if key[0:8] != "reserved":  # don't bother to set reserved bits
